@@ -12,6 +12,7 @@ CONSTANTS
   DestMode = "normalised"
   CopyMode = "content"
   CollectOrder = "configs-then-denylist"
+  ObserverMode = "copied"
   DenyFactories = {}
   DenyMax = 0
 INVARIANT Contained
